@@ -778,6 +778,10 @@ class Explorer:
                         u2 = self.on_edge(user, bid, idx, atom, edge_sense, ctx)
                         if u2 is INFEASIBLE:
                             continue
+                    if s == fn.exit and fn.ret == 'void' and self.on_exit is not None and not returned:
+                        # `if (c) stmt;` as the last statement of a void function: the other edge leaves the function
+                        ctx.env = env2
+                        self.on_exit(u2, ctx, None, None)
                     self._push(node, s, u2, env2, work)
                 continue
             for s in succs:
